@@ -464,6 +464,58 @@ func perts() []pert {
 	addPod("pdb-0-fully-blocking-spec", "pdb", func(g *gw, n *SNode, p *Pod) { g.pdbFor(*p, 0).FullyBlocking = true })
 	addPod("pdb-2", "pdb", func(g *gw, n *SNode, p *Pod) { g.pdbFor(*p, 2) })
 	addPod("pdb-invalid-selector", "fault", func(g *gw, n *SNode, p *Pod) { g.pdbFor(*p, 1).Invalid = true })
+	// selector shapes (labels.Selector semantics) x labelled / label-less pods
+	ex := func(b *PDB, es ...Expr) { b.Sel = &map[string]string{}; b.Exprs = es }
+	unlabeled := func(p *Pod, empty bool) {
+		p.Labels = nil
+		if empty {
+			p.Labels = map[string]string{}
+		}
+	}
+	addPod("pdb-0-emptysel-unlabeled-pod", "pdb-selector", func(g *gw, n *SNode, p *Pod) { g.pdbFor(*p, 0).Sel = &map[string]string{}; unlabeled(p, false) })
+	addPod("pdb-0-emptysel-emptylabels-pod", "pdb-selector", func(g *gw, n *SNode, p *Pod) { g.pdbFor(*p, 0).Sel = &map[string]string{}; unlabeled(p, true) })
+	addPod("pdb-1-emptysel-unlabeled-pod", "pdb-selector", func(g *gw, n *SNode, p *Pod) { g.pdbFor(*p, 1).Sel = &map[string]string{}; unlabeled(p, false) })
+	addPod("pdb-0-doesnotexist-unlabeled-pod", "pdb-selector", func(g *gw, n *SNode, p *Pod) {
+		ex(g.pdbFor(*p, 0), Expr{"tier", "DoesNotExist", nil})
+		unlabeled(p, false)
+	})
+	addPod("pdb-0-notin-unlabeled-pod", "pdb-selector", func(g *gw, n *SNode, p *Pod) {
+		ex(g.pdbFor(*p, 0), Expr{"app", "NotIn", []string{"x", "y"}})
+		unlabeled(p, false)
+	})
+	addPod("pdb-0-nilsel-unlabeled-pod", "pdb-selector", func(g *gw, n *SNode, p *Pod) { g.pdbFor(*p, 0).Sel = nil; unlabeled(p, false) })
+	addPod("pdb-0-matchlabels-unlabeled-pod", "pdb-selector", func(g *gw, n *SNode, p *Pod) { g.pdbFor(*p, 0); unlabeled(p, false) })
+	addPod("pdb-0-exists-unlabeled-pod", "pdb-selector", func(g *gw, n *SNode, p *Pod) { ex(g.pdbFor(*p, 0), Expr{"app", "Exists", nil}); unlabeled(p, true) })
+	addPod("pdb-0-in-unlabeled-pod", "pdb-selector", func(g *gw, n *SNode, p *Pod) {
+		ex(g.pdbFor(*p, 0), Expr{"app", "In", []string{"x"}})
+		unlabeled(p, false)
+	})
+	addPod("pdb-multi-emptysel-doesnotexist-unlabeled-pod", "pdb-selector", func(g *gw, n *SNode, p *Pod) {
+		g.pdbFor(*p, 1).Sel = &map[string]string{}
+		ex(g.pdbFor(*p, 1), Expr{"tier", "DoesNotExist", nil})
+		unlabeled(p, false)
+	})
+	addPod("pdb-0-emptysel-otherns-unlabeled-pod", "pdb-selector", func(g *gw, n *SNode, p *Pod) {
+		b := g.pdbFor(*p, 0)
+		b.Sel, b.NS = &map[string]string{}, "other"
+		unlabeled(p, false)
+	})
+	addPod("unlabeled-pod-no-pdb", "pdb-selector", func(g *gw, n *SNode, p *Pod) { unlabeled(p, false) })
+	addPod("pdb-0-in-match", "pdb-selector", func(g *gw, n *SNode, p *Pod) { ex(g.pdbFor(*p, 0), Expr{"app", "In", []string{"x", p.Labels["app"]}}) })
+	addPod("pdb-0-in-nomatch", "pdb-selector", func(g *gw, n *SNode, p *Pod) { ex(g.pdbFor(*p, 0), Expr{"app", "In", []string{"x", "y"}}) })
+	addPod("pdb-0-notin-match", "pdb-selector", func(g *gw, n *SNode, p *Pod) { ex(g.pdbFor(*p, 0), Expr{"app", "NotIn", []string{"x"}}) })
+	addPod("pdb-0-notin-nomatch", "pdb-selector", func(g *gw, n *SNode, p *Pod) { ex(g.pdbFor(*p, 0), Expr{"app", "NotIn", []string{p.Labels["app"]}}) })
+	addPod("pdb-0-notin-otherkey", "pdb-selector", func(g *gw, n *SNode, p *Pod) { ex(g.pdbFor(*p, 0), Expr{"tier", "NotIn", []string{"x"}}) })
+	addPod("pdb-0-exists-match", "pdb-selector", func(g *gw, n *SNode, p *Pod) { ex(g.pdbFor(*p, 0), Expr{"app", "Exists", nil}) })
+	addPod("pdb-0-exists-otherkey", "pdb-selector", func(g *gw, n *SNode, p *Pod) { ex(g.pdbFor(*p, 0), Expr{"tier", "Exists", nil}) })
+	addPod("pdb-0-doesnotexist-otherkey", "pdb-selector", func(g *gw, n *SNode, p *Pod) { ex(g.pdbFor(*p, 0), Expr{"tier", "DoesNotExist", nil}) })
+	addPod("pdb-0-doesnotexist-app", "pdb-selector", func(g *gw, n *SNode, p *Pod) { ex(g.pdbFor(*p, 0), Expr{"app", "DoesNotExist", nil}) })
+	addPod("pdb-0-labels-and-exprs-match", "pdb-selector", func(g *gw, n *SNode, p *Pod) {
+		g.pdbFor(*p, 0).Exprs = []Expr{{"tier", "DoesNotExist", nil}, {"app", "Exists", nil}}
+	})
+	addPod("pdb-0-labels-and-exprs-nomatch", "pdb-selector", func(g *gw, n *SNode, p *Pod) {
+		g.pdbFor(*p, 0).Exprs = []Expr{{"app", "Exists", nil}, {"tier", "Exists", nil}}
+	})
 	addPod("pdb-0-nilsel", "pdb", func(g *gw, n *SNode, p *Pod) { g.pdbFor(*p, 0).Sel = nil })
 	addPod("pdb-0-emptysel", "pdb", func(g *gw, n *SNode, p *Pod) { g.pdbFor(*p, 0).Sel = &map[string]string{} })
 	addPod("pdb-multi-1-1", "pdb", func(g *gw, n *SNode, p *Pod) { g.pdbFor(*p, 1); g.pdbFor(*p, 1) })
